@@ -113,12 +113,20 @@ func c17Copy(c *Ctx, rel string) {
 			}
 		}
 		if found == nil {
+			// a helper turned into a package-level function (it is then handed what it needs of the curve)
+			if _, isHelper := shape[n]; isHelper {
+				found = c.P.Func(rel, n)
+			}
+		}
+		if found == nil {
 			r.Undec(K("C17.anchor."+n), "", "method %s not found in %s", n, rel)
 			return nil
 		}
 		r.Fn(ana.ShortFunc(found))
 		return found
 	}
+	// what the affine conversion is handed of the curve: the receiver, or (as a plain function) the field modulus
+	const affRecv = "alt(p0, load(faddr<P>(field<CurveParams>(p0))), load(faddr<P>(load(faddr<CurveParams>(p0)))))"
 	mname := func(n string) string {
 		if f := meth(n); f != nil {
 			return f.String()
@@ -182,7 +190,7 @@ func c17Copy(c *Ctx, rel string) {
 				continue
 			}
 			t := b.Of(e.Results[0], e.Instr)
-			pat := "ext#0(call<" + mname("affineFromJacobian") + ">(p0, ext#0($J), ext#1($J), ext#2($J)))"
+			pat := "ext#0(call<" + mname("affineFromJacobian") + ">(" + affRecv + ", ext#0($J), ext#1($J), ext#2($J)))"
 			bd, ok := ana.Match(pat, t)
 			okJ := false
 			if ok {
@@ -204,7 +212,7 @@ func c17Copy(c *Ctx, rel string) {
 				continue
 			}
 			t := b.Of(e.Results[0], e.Instr)
-			bd, ok := ana.Match("ext#0(call<"+mname("affineFromJacobian")+">(p0, ext#0($J), ext#1($J), ext#2($J)))", t)
+			bd, ok := ana.Match("ext#0(call<"+mname("affineFromJacobian")+">("+affRecv+", ext#0($J), ext#1($J), ext#2($J)))", t)
 			okJ := false
 			if ok {
 				jb, m := ana.Match("call<"+mname("doubleJacobian")+">(p0, p1, p2, $z)", bd["$J"])
@@ -359,7 +367,7 @@ func c17Copy(c *Ctx, rel string) {
 			}
 			nRet++
 			t := b.Of(e.Results[0], e.Instr)
-			_, ok := ana.Match("ext#0(call<"+mname("affineFromJacobian")+">(p0, _, _, _))", t)
+			_, ok := ana.Match("ext#0(call<"+mname("affineFromJacobian")+">("+affRecv+", _, _, _))", t)
 			r.Check(ok, K("C17.scalar-loop.single-exit"), c.ipos(e.Instr), "the only way out of ScalarMult is the affine conversion of the accumulator")
 		}
 		r.Check(nRet == 1 && outer && inner, K("C17.scalar-loop.all-bits"), c.P.Pos(f.Pos()), "one return; outer loop ranges over the scalar parameter itself (no pre-reduction, no length special case), inner loop runs 8 times (returns=%d outer=%v inner=%v)", nRet, outer, inner)
